@@ -372,6 +372,34 @@ def record(V, args, timeout=3600):
         return False
 
 
+def repo_test_traces():
+    """Run the repository's OWN unit tests with the hooks on and RATESLIB_VERIF_TRACE set; every outermost DateRoll /
+    FXRates call they make is recorded. Returns paths of the calendar and FX traces (split by event type: plumbing)."""
+    ensure_dirs()
+    tdir = os.path.join(WORK, "repotests-target")
+    raw = os.path.join(WORK, "repotests-%d.ndjson" % os.getpid())
+    if os.path.exists(raw):
+        os.remove(raw)
+    env = dict(os.environ, CARGO_NET_OFFLINE="true", RUSTFLAGS="--cfg rateslib_verif", RATESLIB_VERIF_TRACE=raw)
+    t0 = time.time()
+    r = subprocess.run(["cargo", "test", "--offline", "--lib", "--manifest-path", os.path.join(REPO, "Cargo.toml"), "--target-dir", tdir, "--", "--test-threads", "4"],
+                       env=env, capture_output=True, text=True, timeout=3000)
+    if "error: could not compile" in r.stderr or "error[E" in r.stderr:
+        raise ToolError("the repository's tests do not build with the hooks on:\n" + r.stderr[-3000:])
+    log("[repo tests] traced run in %.1fs" % (time.time() - t0))
+    cal = raw + ".cal"
+    fx = raw + ".fx"
+    n = 0
+    with open(cal, "w") as fc, open(fx, "w") as ff:
+        if os.path.exists(raw):
+            for ln in open(raw):
+                if not ln.strip():
+                    continue
+                n += 1
+                (fc if '"op":"cal"' in ln else ff).write(ln)
+    return {"cal": cal, "fx": fx, "events": n}
+
+
 def write_evidence(pid, tier, level, coverage, assumptions, wall, violations):
     ensure_dirs()
     ev = {"property_id": pid, "tier": tier, "seed": seed(), "level": level, "coverage": coverage,
